@@ -1,7 +1,7 @@
 #!/bin/bash
 # Developer tool: all stored harmless changes against the checks of the properties anchored in the files
 # they touch (plus neighbours), on the private copy used by seedcopy.sh. Prints one line per change.
-cd /verif
+cd ${VSRC:-/verif}
 for d in ${BENIGN_GLOB:-benign/*/}; do
   name=$(basename $d)
   files=$(grep '^+++ b/src/' $d/patch.diff | sed 's|+++ b/src/||' | tr '\n' ' ')
@@ -20,6 +20,6 @@ for d in ${BENIGN_GLOB:-benign/*/}; do
     esac
   done
   props=$(echo $props | tr ' ' '\n' | sort -u | tr '\n' ' ')
-  r=$(./seedcopy.sh benign $name $props 2>&1 | grep -E "CONCRETE|DIVERGENCE|patch does not" | cut -c1-160 | tr '\n' ';')
+  r=$(/verif/seedcopy.sh benign $name $props 2>&1 | grep -E "CONCRETE|DIVERGENCE|patch does not" | cut -c1-160 | tr '\n' ';')
   echo "$name [$files] alarms: ${r:-none}"
 done
